@@ -124,6 +124,18 @@ package opshell
 //@   exit: assert(imp(key == 0x0F, locked), "ctrl_o_takes_the_write_lock"); assert(imp(key != 0x0F, !locked), "other_keys_leave_muting_alone")
 //@   on enter Mutex.Unlock(m): assert(key == 0x0F && imp(!sil0, s.silenced && nReset == 1 && nAnnounce == 1) && imp(sil0, s.silenced && nReset == 0 && nAnnounce == 1), "ctrl_o_mutes_once_and_announces")
 
+// pretendInsert (Ctrl+J): shows what Ctrl+I would send, as a log line (which
+// muting never suppresses); nothing is sent to the shell.
+//@ func Shell.pretendInsert(s)
+//@   props C19 C02
+//@   ghost genErr bool = false
+//@   ghost nGen int = 0
+//@   ghost nLog int = 0
+//@   on call s.insertGen() (b, e): genErr = e != nil; nGen++
+//@   on enter Shell.Logf(ss, c, nts, f, v): assert(ss == s && nGen == 1, "preview_or_failure_is_a_log_line_of_this_shell"); nLog++
+//@   on send s.ich(v): assert(false, "a_preview_sends_nothing_to_the_remote_shell")
+//@   ensures exactly_one_log_line: nGen == 1 && nLog == 1
+
 // ---- operator input path (C02)
 //@ func ChanWriter.Write(cw, b) (n, err)
 //@   locals cw b
